@@ -146,6 +146,10 @@ class C10(Spec):
                 if rng.random() < 0.3 and urls[i].split("/")[2] == ref.split("/")[2]:
                     docs[i]["id"] = urls[i]
                     ref = rng.choice(["/" + ref.split("/", 3)[3], ref.rsplit("/", 1)[1], "//" + ref.split("//", 1)[1]])
+                elif rng.random() < 0.3:
+                    # the continuation as an embedded STUB: one or two keys are a reference (fetched by id), three are the page itself
+                    nk = ("OrderedCollectionPage" if ordered else "CollectionPage")
+                    ref = rng.choice([{"id": ref}, {"id": ref, "type": nk}, {"id": ref, "type": nk}, {"type": nk, "id": ref, "totalItems": 3}])
                 docs[i][nextkey(i)] = ref
         last = n - 1
         if shape in ("cyclic", "empty-cycle"):
